@@ -297,7 +297,13 @@ fn loco_run(r: &mut Rng, t: usize, sink: &mut Sink, made: &mut usize) {
                 "FS_UpdateMu" => { let want = pre.mass.map(|m| arg / (m * G)); if !(post.force == arg && same(post.mass, pre.mass) && match (post.mu, want) { (Some(a), Some(b)) => close_rel(a, b), (None, None) => true, _ => false }) { fails.push(format!("set_force_max(UpdateMu): expected mu={:?}, mass unchanged; got mu={:?}, mass={:?}", want, post.mu, post.mass)); } }
                 "FS_Mass" => { if !(same(post.mu, pre.mu)) { fails.push("set_force_max(Mass): mu changed".into()); } }
                 "US_SetMassToNone" => { if !(post.mu == Some(arg) && post.mass.is_none() && post.force == pre.force) { fails.push(format!("set_mu(SetMassToNone): expected mu={}, mass=None, force unchanged; got mu={:?}, mass={:?}, force={}", arg, post.mu, post.mass, post.force)); } }
-                "US_ForceMax" => { if !(post.mu == Some(arg) && same(post.mass, pre.mass)) { fails.push("set_mu(ForceMax): mu not stored or mass changed".into()); } }
+                "US_ForceMax" => { if !(post.mu == Some(arg) && same(post.mass, pre.mass)) { fails.push("set_mu(ForceMax): mu not stored or mass changed".into()); } 
+                    // ... and the force is mu * g * the mass the GETTER reports (field, or derived from the components); with
+                    // no mass known the option cannot be honoured and the update has to be rejected
+                    match &g.mass {
+                        Ok(Some(m)) => { if !close_rel(post.force, arg * m * G) { fails.push(format!("set_mu(ForceMax) accepted but force_max {} != mu * mass() * g = {}", post.force, arg * m * G)); } }
+                        _ => fails.push(format!("set_mu(ForceMax) accepted although the locomotive's mass is unknown (force_max left at {})", post.force)),
+                    } }
                 "US_Mass" => { if !(post.mu == Some(arg) && close_rel(post.force, pre.force)) { fails.push("set_mu(Mass): mu not stored or force_max changed".into()); } }
                 _ => {}
             }
